@@ -310,6 +310,44 @@ def stress_quiescent_extra(pid, inner=None):
     return extra
 
 
+def order_extra(pid, inner=None):
+    """Free-running program-order runs (harness `order`): caller threads on disjoint keys issue, without awaiting, per-key
+    programs whose outcome is the same under every interleaving with the worker provided one thread's commands are applied
+    in call order; the queue has 1, 2 or 4 slots."""
+    def extra(ctx, res, allsched, impl):
+        import subprocess
+        if inner:
+            inner(ctx, res, allsched, impl)
+        binary, seed, tier = ctx["binary"], ctx["seed"], ctx["tier"]
+        plan = [(1, 1, 8, 100), (2, 1, 8, 100), (4, 2, 8, 100), (2, 4, 8, 100)] if tier == "quick" else \
+               [(t, q, 40, 200) for t in (1, 2, 4, 8) for q in (1, 2, 4)]
+        runs = []
+        for n, (threads, queue, rounds, keys) in enumerate(plan):
+            args = ["order", str(threads), str(queue), str(rounds), str(keys), str(seed + 200 + n)]
+            rep = dict(threads=threads, queue=queue, rounds=rounds, keys=keys, seed=seed + 200 + n, replay="./.build/target/debug/cached-verif-harness " + " ".join(args))
+            try:
+                p = subprocess.run([binary] + args, capture_output=True, text=True, timeout=300)
+                out = [json.loads(l) for l in p.stdout.splitlines() if l.startswith("{")]
+            except subprocess.TimeoutExpired:
+                res["failures"].append(dict(rep, signature="order-run-hung", no_shrink=True, what="the program-order run with %d threads and a queue of %d did not finish" % (threads, queue)))
+                continue
+            d = [x for x in out if x.get("order")]
+            if not d:
+                res["failures"].append(dict(rep, signature="order-run-crashed", no_shrink=True, what="the program-order run printed no result: %s" % p.stderr[-800:]))
+                continue
+            d = d[0]
+            runs.append(d)
+            res["evaluations"] += d["operations"]
+            if d["violation_count"]:
+                res["failures"].append(dict(rep, signature="program-order-broken", no_shrink=True, observed=d,
+                                            what="%d per-key programs of one thread ended differently from their call order, e.g. %s" % (d["violation_count"], json.dumps(d["violations"][:1]))))
+            if d["unanswered"]:
+                res["failures"].append(dict(rep, signature="acknowledgement-unanswered", no_shrink=True, observed=d, what="%d acknowledgements were not completed within 20 s" % d["unanswered"]))
+        res["extra"]["order_runs"] = runs
+        res["rule"] += "; plus %d free-running program-order runs (threads x queue %s)" % (len(plan), sorted({(t, q) for t, q, _, _ in plan}))
+    return extra
+
+
 def release_extra(pid, inner=None):
     """Thorough tier only: the same correspondence with the harness and /repo built in the release profile (overflow
     wraps instead of panicking) against the model's wrapping branch (c_debug = false)."""
@@ -379,7 +417,7 @@ def run_C12(ctx):
 PROPS.update({
     "C02": dict(module="C02", run=mk("C02", ["general", "reads", "ttl", "evict", "queue1", "ttlchain"], 250, 4000), components=["store", "api", "queue_worker", "time"],
                 assumptions=["phase-contiguous schedules; every write uses a unique value token; hash functions identity / constant / mod 2 / multiplicative"]),
-    "C11": dict(module="C11", run=mk("C11", ["queue1", "general", "shutdown"], 250, 4000), components=["queue_worker", "api", "roles"],
+    "C11": dict(module="C11", run=mk("C11", ["queue1", "general", "shutdown"], 250, 4000, extra=order_extra("C11")), components=["queue_worker", "api", "roles"],
                 assumptions=["that crossbeam's bounded channel is FIFO and that send blocks when full is exercised through parked senders (queue sizes 1,2,3,8), not proved"]),
     "C12": dict(module="C12", run=run_C12, components=["ack"],
                 assumptions=["each access to status / waker slot is one atomic action because it happens under its parking_lot mutex; Release/Acquire on the flag is modelled as sequentially consistent"]),
